@@ -260,6 +260,26 @@ def hand_scenarios():
                    {"label": "ddd", "inputs": [["f", ["S", "fee", []]]], "logic": ["fn", "echo"]}]}
 
 
+def drift_scenarios():
+    """ResourceFunctions whose present object has drifted (inside a list compared as a set) run next to other
+    steps with outstanding calls: read, compare, PATCH, Retry - in every completion order  (family added for seeded
+    C02-17: a comparator that raises on that difference made the sibling's outcome depend on who finished first)"""
+    C = m.C
+    for existing in (["obj-d"], ["obj-d", "obj-a"], ["obj-d", "obj-e", "obj-fd-1"], []):
+        yield {"name": "wf-main", "trigger": {"spec": {"y": 1}}, "subs": {}, "existing": existing, "edit": None, "broken": None,
+               "steps": [
+                   {"label": "ddd", "inputs": [["name", C("obj-d")], ["v", C(1)]], "logic": ["fn", "resd"],
+                    "state": [["k", C("d")]], "cond": ["Delta", "thing d"]},
+                   {"label": "aaa", "inputs": [["name", C("obj-a")], ["v", C(2)]], "logic": ["fn", "res"],
+                    "state": [["k", ["V", ["got", "v"]]]], "cond": ["Alpha", "thing a"]},
+                   {"label": "eee", "inputs": [["name", C("obj-e")], ["v", C(3)]], "logic": ["fn", "resd"]},
+                   {"label": "ccc", "inputs": [["a", ["S", "aaa", ["got", "v"]]]], "logic": ["fn", "echo"]}]}
+    yield {"name": "wf-main", "trigger": {}, "subs": {}, "existing": ["obj-fd-0", "obj-fd-2", "obj-b"], "edit": None, "broken": None,
+           "steps": [{"label": "fdd", "inputs": [["w", C(1)]], "foreach": [C(["obj-fd-0", "obj-fd-1", "obj-fd-2"]), "name"],
+                      "logic": ["fn", "resd"]},
+                     {"label": "bbb", "inputs": [["name", C("obj-b")]], "logic": ["fn", "resl"], "cond": ["Beta", "thing b"]}]}
+
+
 def many_item_scenarios():
     """forEach over MORE THAN 10 items (index 10 vs index 2), items distinguishable, some objects already present"""
     C = m.C
@@ -291,6 +311,9 @@ def scenarios(ctx: Ctx):
         sc = m.rand_scenario(ctx.rng, nsteps=ctx.rng.choice([2, 3, 4, 5, 6, 8, 10, 12, 16]), broken=False,
                              res_bias=ctx.rng.choice([0.2, 0.4, 0.6]))
         sc["err_rate"] = 0.0
+        yield sc
+    # after the random stream, so that the latency plans drawn for it leave the random workflows of a seed unchanged
+    for sc in drift_scenarios():
         yield sc
 
 
